@@ -68,8 +68,23 @@ def scan_sources():
 
 
 def theorems_of(module_path):
+    """fully qualified names of the theorems of a file (`namespace N … end N` blocks are tracked)"""
     src = strip_comments(open(module_path).read())
-    return re.findall(r"^theorem\s+([A-Za-z0-9_.']+)", src, flags=re.M)
+    ns = []
+    out = []
+    for line in src.splitlines():
+        m = re.match(r"^namespace\s+([A-Za-z0-9_.']+)", line)
+        if m:
+            ns.append(m.group(1))
+            continue
+        m = re.match(r"^end\s+([A-Za-z0-9_.']+)", line)
+        if m and ns and ns[-1] == m.group(1):
+            ns.pop()
+            continue
+        m = re.match(r"^theorem\s+([A-Za-z0-9_.']+)", line)
+        if m:
+            out.append(".".join(ns + [m.group(1)]))
+    return out
 
 
 def prop_modules(prop):
